@@ -435,6 +435,20 @@ def hash_taint(crate):
                                     if a[0] == "var":
                                         bounds.append(h.iter_source(a[2]))
                     helper_sinks.append((h, payload_free(mir.subst_expr(val, mapping)), [mir.subst_expr(x, mapping) for x in bounds]))
+                if not any(hh is h for hh, _, _ in helper_sinks):
+                    # the helper feeds the hasher from a closure of its own (`words.into_iter().for_each(|w| w.hash(state))`):
+                    # what reaches the hasher are elements of the iterator it was handed - taint everything it was handed
+                    for cb in crate.closures_of.get(h.path, []):
+                        if any((cfn or {}).get("trait", "").endswith(("hash::Hash", "hash::Hasher")) for _, _, cfn in cb.iter_calls()):
+                            parts = list(args)
+                            for a in args:
+                                for x in walk(a):
+                                    if isinstance(x, tuple) and x[:1] == ("closure",):
+                                        sc = storage.subst_closure(crate, x)
+                                        if sc is not None:
+                                            parts.append(sc[0])
+                            helper_sinks.append((h, ("tuple", tuple(parts)), []))
+                            break
             for h, val, bounds in helper_sinks:
                 sinks += 1
                 tv = _taint(val)
